@@ -37,6 +37,8 @@ func main() {
 		os.Exit(cmdCheck(os.Args[2:]))
 	case "replay":
 		os.Exit(cmdReplay(os.Args[2:]))
+	case "sweep":
+		cmdSweep(os.Args[2:])
 	case "selftest":
 		os.Exit(cmdSelftest(os.Args[2:]))
 	default:
